@@ -9,7 +9,7 @@ from ..engines.seqsim import Skip, Violation
 ID = "C16"
 ENGINE = "seqsim"
 LEVEL = "exploration"
-RUNS = {"quick": 24000, "thorough": 400000}
+RUNS = {"quick": 60000, "thorough": 400000}
 CHUNK = 250
 RULE = ("seeded traces on 1-2 objects (+retained and REMOVED child handles) in which the simulated user keeps every "
         "container argument it passed in and every container result it got back ((), values(), items(), pop, "
